@@ -7,11 +7,14 @@ From SV Require Import lib.Bytes lib.Closure model.Graph model.GraphInv
 Import ListNotations.
 Open Scope N_scope.
 
+Section HH.
+Context {hh : bool}.
+
 (* ------------------------------------------------------------------------------------------ *)
 (* claims                                                                                      *)
 (* ------------------------------------------------------------------------------------------ *)
 Lemma existing_claim_spec l s :
-  Inv s -> exists cl, existing_claim l s = Ok cl /\ (cl = None -> is_detached (KFile, l) s = true).
+  Inv hh s -> exists cl, existing_claim l s = Ok cl /\ (cl = None -> is_detached (KFile, l) s = true).
 Proof.
   intros HI. pose proof (inv_nw _ HI) as HW. unfold existing_claim.
   rewrite is_detached_findn. unfold find_node, find_file.
@@ -32,7 +35,7 @@ Proof.
 Qed.
 
 Lemma check_declaration_node_spec strict c l role s :
-  Inv s -> wpg strict (check_declaration_node c l role s)
+  Inv hh s -> wpg strict (check_declaration_node c l role s)
              (fun isnew => isnew = true -> is_detached (KFile, l) s = true).
 Proof.
   intros HI. unfold check_declaration_node. destruct (existing_claim_spec l s HI) as [cl [-> Hcl]].
@@ -41,7 +44,7 @@ Proof.
 Qed.
 
 Lemma check_declaration_phrase_spec strict l s :
-  Inv s -> wpg strict (check_declaration_phrase l s) (fun _ => is_detached (KFile, l) s = true).
+  Inv hh s -> wpg strict (check_declaration_phrase l s) (fun _ => is_detached (KFile, l) s = true).
 Proof.
   intros HI. unfold check_declaration_phrase. destruct (existing_claim_spec l s HI) as [cl [-> Hcl]].
   cbn [bind]. destruct cl as [x|]; [exact I | cbn; auto].
@@ -49,7 +52,7 @@ Qed.
 
 (* the "todo" lists of declare_static_files / amend_step *)
 Lemma todo_fold_spec strict c role s paths :
-  Inv s -> forall acc,
+  Inv hh s -> forall acc,
   (forall l, In l acc -> is_detached (KFile, l) s = true) ->
   wpg strict (foldM (fun acc l => do isnew <- check_declaration_node c l role s;
                                   Ok (if isnew : bool then acc ++ [l] else acc)) paths acc)
@@ -90,21 +93,21 @@ Proof.
 Qed.
 
 Lemma declare_file_spec strict c l f s :
-  Inv s ->
+  Inv hh s ->
   (strict = true -> (f = FUnconfirmed \/ f = FPlanned \/ f = FVolatile) /\
                     creator_good (KFile, l) c s /\ is_detached (KFile, l) s = true) ->
   wpg strict (declare_file c l f s)
-      (fun s' => Inv s' /\ NF [(KFile, l)] s s' /\ In (KFile, l) (KL (nodes s'))).
+      (fun s' => Inv hh s' /\ NF [(KFile, l)] s s' /\ In (KFile, l) (KL (nodes s'))).
 Proof.
   intros HI Hst. unfold declare_file.
   assert (Hbad : forall t, f <> FUnconfirmed -> f <> FPlanned -> f <> FVolatile ->
-                 wpg strict (@Internal st t) (fun s' => Inv s' /\ NF [(KFile, l)] s s' /\ In (KFile, l) (KL (nodes s')))).
+                 wpg strict (@Internal st t) (fun s' => Inv hh s' /\ NF [(KFile, l)] s s' /\ In (KFile, l) (KL (nodes s')))).
   { intros t H1 H2 H3. destruct strict; [|exact I]. cbn. destruct (Hst eq_refl) as [[H|[H|H]] _]; congruence. }
   assert (Hcreate : wpg strict (create (KFile, l) (Some c) (InitFile f) s)
-                      (fun s' => Inv s' /\ NF [(KFile, l)] s s' /\ In (KFile, l) (KL (nodes s'))) \/
+                      (fun s' => Inv hh s' /\ NF [(KFile, l)] s s' /\ In (KFile, l) (KL (nodes s'))) \/
                     (f <> FUnconfirmed /\ f <> FPlanned /\ f <> FVolatile)).
   { destruct f; try (right; repeat split; discriminate); left;
-      (eapply wpg_weaken; [apply create_spec; [exact HI | split; [reflexivity | discriminate] |
+      (eapply wpg_weaken; [apply (@create_spec hh); [exact HI | split; [reflexivity | discriminate] |
          intros Hs; destruct (Hst Hs) as [_ [Hg Hd]]; split; [apply creator_ok_good; exact Hg|];
          split; [exact Hd | intros f0 Hf0; inversion Hf0; reflexivity]] |
        intros s' [H1 [H2 [H3 _]]]; auto]). }
@@ -126,23 +129,23 @@ Proof.
 Qed.
 
 Lemma resolve_supply_file_spec strict step l rn s :
-  Inv s ->
+  Inv hh s ->
   wpg strict (resolve_supply_file step l rn s)
-      (fun r => Inv (fst r) /\ NF [] s (fst r) /\ In (KFile, l) (KL (nodes (fst r)))).
+      (fun r => Inv hh (fst r) /\ NF [] s (fst r) /\ In (KFile, l) (KL (nodes (fst r)))).
 Proof.
   intros HI. pose proof (inv_nw _ HI) as HW. unfold resolve_supply_file.
   assert (Hcreate : is_detached (KFile, l) s = true ->
             wpg strict (create (KFile, l) None (InitFile FUndeclared) s)
-                (fun s1 => Inv s1 /\ NF [] s s1 /\ In (KFile, l) (KL (nodes s1)))).
+                (fun s1 => Inv hh s1 /\ NF [] s s1 /\ In (KFile, l) (KL (nodes s1)))).
   { intros Hd. eapply wpg_weaken.
-    - apply create_spec; [exact HI | split; [reflexivity | reflexivity] |].
+    - apply (@create_spec hh); [exact HI | split; [reflexivity | reflexivity] |].
       intros _. split; [reflexivity|]. split; [exact Hd|]. intros f Hf. inversion Hf. reflexivity.
     - intros s1 [H1 [H2 [H3 H4]]]. split; [exact H1|]. split; [|exact H3].
       eapply NF_nil_of_create; [exact H2 | exact H4]. }
-  assert (Hfin : forall s1, Inv s1 -> NF [] s s1 -> In (KFile, l) (KL (nodes s1)) ->
+  assert (Hfin : forall s1, Inv hh s1 -> NF [] s s1 -> In (KFile, l) (KL (nodes s1)) ->
             wpg strict (let isnew := negb (has_dep (KFile, l) (KStep, step) s1) in
                         if negb isnew && rn then Usage 205 else Ok (s1, isnew))
-                (fun r => Inv (fst r) /\ NF [] s (fst r) /\ In (KFile, l) (KL (nodes (fst r))))).
+                (fun r => Inv hh (fst r) /\ NF [] s (fst r) /\ In (KFile, l) (KL (nodes (fst r))))).
   { intros s1 H1 H2 H3. cbn zeta. destruct (negb (negb (has_dep (KFile, l) (KStep, step) s1)) && rn); cbn; auto. }
   apply wpg_bind.
   destruct (find_node (KFile, l) s) as [n|] eqn:Hn.
@@ -156,7 +159,7 @@ Proof.
     + assert (Hok : wpg strict (Ok s) (fun s1 => wpg strict
                  (let isnew := negb (has_dep (KFile, l) (KStep, step) s1) in
                   if negb isnew && rn then Usage 205 else Ok (s1, isnew))
-                 (fun r => Inv (fst r) /\ NF [] s (fst r) /\ In (KFile, l) (KL (nodes (fst r)))))).
+                 (fun r => Inv hh (fst r) /\ NF [] s (fst r) /\ In (KFile, l) (KL (nodes (fst r)))))).
       { cbn [wpg]. apply Hfin; [exact HI | apply NF_refl |]. rewrite <- Hkey. apply in_map. exact Hin. }
       destruct fs; try exact Hok. exact I.
     + destruct strict; [|exact I]. cbn. rewrite fstate_of_findf in Hfs.
@@ -184,13 +187,13 @@ Proof.
 Qed.
 
 Lemma supply_files_spec strict step paths rn dyn s :
-  Inv s -> In (KStep, step) (KL (nodes s)) ->
-  wpg strict (supply_files step paths rn dyn s) (fun s' => Inv s' /\ NF [] s s').
+  Inv hh s -> In (KStep, step) (KL (nodes s)) ->
+  wpg strict (supply_files step paths rn dyn s) (fun s' => Inv hh s' /\ NF [] s s').
 Proof.
   intros HI Hstep. unfold supply_files. apply wpg_bind.
   eapply wpg_weaken.
   { apply (wpg_foldM strict _ (fun acc : st * list str =>
-             Inv (fst acc) /\ NF [] s (fst acc) /\ (forall l, In l (snd acc) -> In (KFile, l) (KL (nodes (fst acc)))))).
+             Inv hh (fst acc) /\ NF [] s (fst acc) /\ (forall l, In l (snd acc) -> In (KFile, l) (KL (nodes (fst acc)))))).
     - intros acc l _ [H1 [H2 H3]]. apply wpg_bind.
       eapply wpg_weaken; [apply resolve_supply_file_spec; exact H1|].
       intros r [R1 [R2 R3]]. cbn [wpg fst snd]. split; [exact R1|]. split; [eapply NF_trans; eassumption|].
@@ -202,13 +205,13 @@ Proof.
   assert (Hstep1 : In (KStep, step) (KL (nodes s1))) by (apply (proj1 H2); exact Hstep).
   assert (Hadd : (forall l, In l news -> ~ path (EL (deps s1)) (KStep, step) (KFile, l)) ->
             wpg strict (foldM (fun s l => add_dep (KFile, l) (KStep, step) dyn s) news s1)
-                (fun s' => Inv s' /\ NF [] s s')).
+                (fun s' => Inv hh s' /\ NF [] s s')).
   { intros Hnp. eapply wpg_weaken.
     - apply (wpg_foldM_rem strict _ (fun rest s' =>
-               Inv s' /\ nodes s' = nodes s1 /\ incl rest news /\
+               Inv hh s' /\ nodes s' = nodes s1 /\ incl rest news /\
                (forall l, In l rest -> ~ path (EL (deps s')) (KStep, step) (KFile, l)))).
       + intros s' l rest [I1 [I2 [I3 I4]]]. eapply wpg_weaken.
-        * apply add_dep_spec; [exact I1 | rewrite I2; apply H3; apply I3; left; reflexivity
+        * apply (@add_dep_spec hh); [exact I1 | rewrite I2; apply H3; apply I3; left; reflexivity
                               | rewrite I2; exact Hstep1 | apply I4; left; reflexivity | reflexivity].
         * intros s'' [J1 J2]. split; [exact J1|]. subst s''. cbn [nodes deps set_deps].
           split; [exact I2|]. split; [intros x Hx; apply I3; right; exact Hx|].
@@ -224,13 +227,13 @@ Proof.
 Qed.
 
 Lemma add_output_edge_spec strict step l dyn s :
-  Inv s -> In (KStep, step) (KL (nodes s)) -> In (KFile, l) (KL (nodes s)) ->
-  wpg strict (add_output_edge step l dyn s) (fun s' => Inv s' /\ nodes s' = nodes s).
+  Inv hh s -> In (KStep, step) (KL (nodes s)) -> In (KFile, l) (KL (nodes s)) ->
+  wpg strict (add_output_edge step l dyn s) (fun s' => Inv hh s' /\ nodes s' = nodes s).
 Proof.
   intros HI H1 H2. unfold add_output_edge.
   destruct (would_cycle (KFile, l) [(KStep, step)] s) eqn:Ewc; [exact I|].
   eapply wpg_weaken.
-  - apply add_dep_spec; [exact HI | exact H1 | exact H2 | | reflexivity].
+  - apply (@add_dep_spec hh); [exact HI | exact H1 | exact H2 | | reflexivity].
     eapply would_cycle_false; [exact Ewc | left; reflexivity].
   - intros s' [J1 ->]. split; [exact J1 | reflexivity].
 Qed.
@@ -257,18 +260,18 @@ Qed.
 
 Lemma declare_fold_spec strict c f (after : str -> st -> res st) ls s :
   (f = FUnconfirmed \/ f = FPlanned \/ f = FVolatile) ->
-  (forall l s1, Inv s1 -> In c (KL (nodes s1)) -> In (KFile, l) (KL (nodes s1)) ->
-                wpg strict (after l s1) (fun s2 => Inv s2 /\ nodes s2 = nodes s1)) ->
-  Inv s -> In c (KL (nodes s)) ->
+  (forall l s1, Inv hh s1 -> In c (KL (nodes s1)) -> In (KFile, l) (KL (nodes s1)) ->
+                wpg strict (after l s1) (fun s2 => Inv hh s2 /\ nodes s2 = nodes s1)) ->
+  Inv hh s -> In c (KL (nodes s)) ->
   (strict = true -> fst c <> KFile /\ creator_kind_ok KFile (fst c) = true /\ NoDup ls /\
                     forall l, In l ls -> is_detached (KFile, l) s = true) ->
   wpg strict (foldM (fun s l => do s' <- declare_file c l f s; after l s') ls s)
-      (fun s' => Inv s' /\ NF (fkeys ls) s s').
+      (fun s' => Inv hh s' /\ NF (fkeys ls) s s').
 Proof.
   intros Hf Hafter HI Hc Hst.
   eapply wpg_weaken.
   - apply (wpg_foldM_rem strict _ (fun rest s' =>
-             Inv s' /\ NF (fkeys ls) s s' /\ incl rest ls /\
+             Inv hh s' /\ NF (fkeys ls) s s' /\ incl rest ls /\
              (strict = true -> NoDup rest /\ forall l, In l rest -> is_detached (KFile, l) s' = true))).
     + intros s' l rest [I1 [I2 [I3 I4]]].
       assert (Hc' : In c (KL (nodes s'))) by (apply (proj1 I2); exact Hc).
@@ -296,7 +299,7 @@ Proof.
 Qed.
 
 Lemma phrase_fold_spec strict ls s :
-  Inv s ->
+  Inv hh s ->
   wpg strict (foldM (fun (u : unit) l => do _ <- check_declaration_phrase l s; Ok tt) ls tt)
       (fun _ => forall l, In l ls -> is_detached (KFile, l) s = true).
 Proof.
@@ -306,12 +309,12 @@ Proof.
 Qed.
 
 Lemma fold_add_env_inv label dyn rep env s :
-  Inv s -> In (KStep, label) (KL (nodes s)) ->
-  Inv (fold_left (fun s e => add_env label e dyn rep s) env s) /\
+  Inv hh s -> In (KStep, label) (KL (nodes s)) ->
+  Inv hh (fold_left (fun s e => add_env label e dyn rep s) env s) /\
   nodes (fold_left (fun s e => add_env label e dyn rep s) env s) = nodes s.
 Proof.
   intros HI Hk.
-  apply (fold_left_inv (fun s e => add_env label e dyn rep s) (fun s' => Inv s' /\ nodes s' = nodes s)).
+  apply (fold_left_inv (fun s e => add_env label e dyn rep s) (fun s' => Inv hh s' /\ nodes s' = nodes s)).
   - intros s' e [H1 H2]. split.
     + apply add_env_inv; [exact H1|]. apply find_step_SL. apply (rw_steps _ _ _ _ _ (inv_rw _ H1)).
       rewrite H2. exact Hk.
@@ -333,8 +336,8 @@ Proof. intros H. rewrite !is_detached_findn, H. reflexivity. Qed.
 (* declare_static_files                                                                        *)
 (* ------------------------------------------------------------------------------------------ *)
 Lemma declare_static_files_spec strict c paths s :
-  Inv s -> (strict = true -> find_node c s <> None /\ creator_kind_ok KFile (fst c) = true /\ NoDup paths) ->
-  wpg strict (declare_static_files c paths s) (fun s' => Inv s').
+  Inv hh s -> (strict = true -> find_node c s <> None /\ creator_kind_ok KFile (fst c) = true /\ NoDup paths) ->
+  wpg strict (declare_static_files c paths s) (fun s' => Inv hh s').
 Proof.
   intros HI Hst. unfold declare_static_files.
   destruct (is_some (find_node c s)) eqn:Ec; cbn [negb].
@@ -356,10 +359,10 @@ Qed.
 (* define_step                                                                                 *)
 (* ------------------------------------------------------------------------------------------ *)
 Lemma define_step_new_spec strict creator label inp env out vol nd s :
-  Inv s ->
+  Inv hh s ->
   (strict = true -> creator_good (KStep, label) creator s /\ is_detached (KStep, label) s = true /\
                     NoDup out /\ NoDup vol) ->
-  wpg strict (define_step_new creator label inp env out vol nd s) (fun s' => Inv s').
+  wpg strict (define_step_new creator label inp env out vol nd s) (fun s' => Inv hh s').
 Proof.
   intros HI Hst. unfold define_step_new. set (k := (KStep, label)).
   apply wpg_bind. eapply wpg_weaken; [apply phrase_fold_spec; exact HI|]. intros u1 Hout. cbn beta in Hout.
@@ -367,7 +370,7 @@ Proof.
   destruct (existsb (fun l => mem_str l vol) out) eqn:Eov; [exact I|].
   pose proof (overlap_false _ _ Eov) as Hdisj.
   apply wpg_bind. eapply wpg_weaken.
-  { apply create_spec; [exact HI | reflexivity |]. intros Hs. destruct (Hst Hs) as [S1 [S2 _]].
+  { apply (@create_spec hh); [exact HI | reflexivity |]. intros Hs. destruct (Hst Hs) as [S1 [S2 _]].
     split; [apply creator_ok_good; exact S1|]. split; [exact S2 | intros f Hf; discriminate]. }
   intros s1 [I1 [NF1 [K1 _]]].
   apply wpg_bind. eapply wpg_weaken; [apply supply_files_spec; [exact I1 | exact K1]|].
@@ -379,8 +382,8 @@ Proof.
   assert (Hdet3 : forall l, is_detached (KFile, l) s = true -> is_detached (KFile, l) s3 = true).
   { intros l Hd. rewrite (is_detached_nodes_eq _ _ _ N3). apply (proj2 NF2); [intros []|].
     apply (proj2 NF1); [|exact Hd]. intros [He|[]]. discriminate. }
-  assert (Hafter : forall l s1, Inv s1 -> In k (KL (nodes s1)) -> In (KFile, l) (KL (nodes s1)) ->
-             wpg strict (add_output_edge label l false s1) (fun s2 => Inv s2 /\ nodes s2 = nodes s1)).
+  assert (Hafter : forall l s1, Inv hh s1 -> In k (KL (nodes s1)) -> In (KFile, l) (KL (nodes s1)) ->
+             wpg strict (add_output_edge label l false s1) (fun s2 => Inv hh s2 /\ nodes s2 = nodes s1)).
   { intros l t H1 H2 H3. apply add_output_edge_spec; assumption. }
   apply wpg_bind. eapply wpg_weaken.
   { apply (declare_fold_spec strict k FPlanned (fun l s => add_output_edge label l false s) out s3);
@@ -400,10 +403,10 @@ Qed.
 
 
 Lemma define_step_spec strict creator label inp env out vol nd s :
-  Inv s ->
+  Inv hh s ->
   (strict = true -> find_node creator s <> None /\ creator <> (KStep, label) /\
                     creator_kind_ok KStep (fst creator) = true /\ NoDup out /\ NoDup vol) ->
-  wpg strict (define_step creator label inp env out vol nd s) (fun s' => Inv s').
+  wpg strict (define_step creator label inp env out vol nd s) (fun s' => Inv hh s').
 Proof.
   intros HI Hst. unfold define_step. set (k := (KStep, label)).
   destruct (is_some (find_node creator s)) eqn:Ec; cbn [negb].
@@ -411,7 +414,7 @@ Proof.
   apply is_some_true in Ec.
   destruct (key_eqb creator root_key && root_has_step s); [exact I|].
   assert (Hnew : is_detached k s = true ->
-            wpg strict (define_step_new creator label inp env out vol nd s) (fun s' => Inv s')).
+            wpg strict (define_step_new creator label inp env out vol nd s) (fun s' => Inv hh s')).
   { intros Hd. apply define_step_new_spec; [exact HI|]. intros Hs.
     destruct (Hst Hs) as [S1 [S2 [S3 [S4 S5]]]]. split; [|split; [exact Hd | split; assumption]].
     split; [exact S1 | split; [exact S2 | exact S3]]. }
@@ -425,19 +428,19 @@ Proof.
   destruct (can_recycle label inp env out vol s); [|apply Hnew; exact Hdk].
   (* full recycle *)
   apply wpg_bind. eapply wpg_weaken.
-  { apply node_reattach_spec; [exact HI | reflexivity |]. intros Hs.
+  { apply (@node_reattach_spec hh); [exact HI | reflexivity |]. intros Hs.
     destruct (Hst Hs) as [S1 [S2 [S3 _]]]. split; [rewrite Hn; discriminate|]. split; [exact S1|].
     split; [exact Hdk|]. split; [exact S2 | exact S3]. }
   intros s1 [I1 [NO1 _]].
   set (g := fun r : srow => mkS (sl r) (sst r) nd (sdef r) (sdc r) 0).
   destruct (upd_step_inv label g s1 I1) as [I2 SO2]; [reflexivity | |].
   { intros r Hr _. pose proof (inv_sw _ I1 r Hr) as Hok. unfold sw_ok_b, g in *. cbn [sdef sst shold].
-    apply andb_true_iff in Hok. destruct Hok as [Hok _]. rewrite Hok. reflexivity. }
+    apply andb_true_iff in Hok. destruct Hok as [Hok _]. rewrite Hok. destruct hh; reflexivity. }
   fold g. set (s2 := upd_step label g s1) in *.
   destruct (sstate_of label s2) as [st0|] eqn:Hss; [|cbn; exact I2].
   destruct st0; try (cbn; exact I2).
   eapply wpg_weaken.
-  - apply mark_step_pending_spec; [exact I2|]. intros _. unfold sstate_of in Hss.
+  - apply (@mark_step_pending_spec hh); [exact I2|]. intros _. unfold sstate_of in Hss.
     destruct (find_step label s2); [discriminate | discriminate].
   - intros s3 [I3 _]. exact I3.
 Qed.
@@ -446,9 +449,9 @@ Qed.
 (* amend_step                                                                                  *)
 (* ------------------------------------------------------------------------------------------ *)
 Lemma amend_step_spec strict label inp env out vol s :
-  Inv s ->
+  Inv hh s ->
   (strict = true -> find_node (KStep, label) s <> None /\ NoDup out /\ NoDup vol) ->
-  wpg strict (amend_step label inp env out vol s) (fun s' => Inv s').
+  wpg strict (amend_step label inp env out vol s) (fun s' => Inv hh s').
 Proof.
   intros HI Hst. unfold amend_step. set (k := (KStep, label)).
   destruct (is_some (find_node k s) && is_some (find_step label s)) eqn:Eg; cbn [negb].
@@ -470,8 +473,8 @@ Proof.
   intros vol' [V1 [V2 V3]].
   destruct (existsb (fun l => mem_str l vol') out') eqn:Eov; [exact I|].
   pose proof (overlap_false _ _ Eov) as Hdisj.
-  assert (Hafter : forall l s1, Inv s1 -> In k (KL (nodes s1)) -> In (KFile, l) (KL (nodes s1)) ->
-             wpg strict (add_output_edge label l true s1) (fun s2 => Inv s2 /\ nodes s2 = nodes s1)).
+  assert (Hafter : forall l s1, Inv hh s1 -> In k (KL (nodes s1)) -> In (KFile, l) (KL (nodes s1)) ->
+             wpg strict (add_output_edge label l true s1) (fun s2 => Inv hh s2 /\ nodes s2 = nodes s1)).
   { intros l t H1 H2 H3. apply add_output_edge_spec; assumption. }
   apply wpg_bind. eapply wpg_weaken.
   { apply (declare_fold_spec strict k FPlanned (fun l s => add_output_edge label l true s) out' s2);
@@ -488,3 +491,5 @@ Proof.
     - apply V1. exact Hl. }
   intros s4 [I4 _]. exact I4.
 Qed.
+
+End HH.
